@@ -314,6 +314,14 @@ pub fn sizes(args: &[String]) -> i32 {
             let v: Vec<i64> = c.to_collection_generator(size).sample(&mut rng);
             (v.len(), c.0.get())
         })));
+        // the size is a public field: the size delivered is the one configured NOW
+        rows.push(("vec_collect_resized", guarded(|| {
+            let c = Counter(Cell::new(0));
+            let mut g = Generator::new(&c, size / 2 + 3);
+            g.size = size;
+            let v: Vec<i64> = g.sample(&mut rng);
+            (v.len(), c.0.get())
+        })));
         // an element type of size zero (units, markers): still exactly `size` elements
         rows.push(("vec_collect_zero_sized", guarded(|| {
             struct Units(Cell<i64>);
